@@ -70,6 +70,13 @@ def run(v):
             continue
         orient = {e: rng.randint(0, 1) for e in S.edges if len(S.edges.members(e)) >= 2}
         use_orient = orient if rng.random() < 0.7 else None
+        # the documentation says "boolean orientation": the same assignment handed over as ints, Python bools, numpy bools or
+        # numpy integers is the same argument (the model takes 0 / 1)
+        pres_kind = rng.choice(["int", "bool", "np.bool_", "np.int64"])
+        conv = {"int": int, "bool": bool, "np.bool_": np.bool_, "np.int64": np.int64}[pres_kind]
+        model_orient = use_orient
+        if use_orient is not None:
+            use_orient = {e: conv(o) for e, o in use_orient.items()}
         try:
             with warnings.catch_warnings():
                 warnings.simplefilter("ignore")
@@ -77,7 +84,8 @@ def run(v):
         except Exception as e:  # noqa: BLE001
             d = f"raised {type(e).__name__}: {e}"
         if d:
-            failures.append((f"{PROP}:{' '.join(d.split(' ')[:3])}", {"what": d, "history": HC.jsonable(r["ops"]), "orientations": HC.jsonable(use_orient)}))
+            failures.append((f"{PROP}:{' '.join(d.split(' ')[:3])}", {"what": d, "history": HC.jsonable(r["ops"]), "orientations": HC.jsonable(model_orient),
+                                                                       "orientations_given_as": pres_kind}))
             continue
         bs, hs = [], []
         try:
@@ -92,7 +100,7 @@ def run(v):
                 hs.append(G.gpair(G.gnat(k), gmat(L)))
                 nmat += 1
             opsg = G.glist([scsim.op_to_gallina(op, ex) for op, ex in zip(r["ops"], r["extras"])])
-            og = G.glist([G.gpair(G.lbl(e), G.gZ(o)) for e, o in (use_orient or {}).items()])
+            og = G.glist([G.gpair(G.lbl(e), G.gZ(o)) for e, o in (model_orient or {}).items()])
             terms.append((i, G.gpair(opsg, og, G.glist(bs), G.glist(hs))))
         except G.Unsupported:
             pass
